@@ -19,6 +19,7 @@ struct Tagged { virtual ~Tagged() {} unsigned long canary = 0xC0FFEE11u; unsigne
 struct Obj : public Tagged, public AbstractClass { int tag = 0; };
 using Ref = SafePtr<Obj>;
 con::Container<Ref>* cont = nullptr;
+bool quiet = false;
 
 std::vector<Obj*> objs;   // index = id, 0 unused
 std::vector<Ref*> refs;
@@ -32,6 +33,16 @@ size_t idOf(const Obj* p)
     if (!p) return 0;
     for (size_t i = 1; i < objs.size(); ++i) if (objs[i] == p) return i;
     return 999999; // dangling: not any live object
+}
+
+std::string canaries()
+{
+    std::string out;
+    for (size_t i = 1; i < objs.size(); ++i) {
+        if (objs[i] && (objs[i]->canary != 0xC0FFEE11u || objs[i]->pad[0] || objs[i]->pad[1] || objs[i]->pad[2] || objs[i]->pad[3]))
+            out += " CANARY-BAD:" + std::to_string(i);
+    }
+    return out;
 }
 
 std::string observe()
@@ -55,10 +66,44 @@ std::string observe()
             else out += "c" + std::to_string(k) + ":" + std::to_string(idOf(p)) + ":" + (e.IsLastReference() ? "L" : "N");
         }
     }
-    for (size_t i = 1; i < objs.size(); ++i) {
-        if (objs[i] && (objs[i]->canary != 0xC0FFEE11u || objs[i]->pad[0] || objs[i]->pad[1] || objs[i]->pad[2] || objs[i]->pad[3]))
-            out += " CANARY-BAD:" + std::to_string(i);
+    out += canaries();
+    return out;
+}
+
+std::string tokOf(const Ref& e)
+{
+    const Obj* p = e.Pointer();
+    if (e.Valid() != (p != nullptr)) return "VALID-MISMATCH";
+    if (!p) return "0";
+    return std::to_string(idOf(p)) + ":" + (e.IsLastReference() ? "L" : "N");
+}
+
+// run-length encoded observation (same format as Driver.SafePtr.observeRle)
+std::string observeRle()
+{
+    std::string out;
+    size_t a = 0, b = 0; std::string cur;
+    auto flush = [&]() {
+        if (!a) return;
+        if (!out.empty()) out += ' ';
+        out += std::to_string(a) + "-" + std::to_string(b) + ":" + cur;
+        a = 0;
+    };
+    for (size_t r = 1; r < refs.size(); ++r) {
+        if (!refs[r]) { flush(); continue; }
+        const std::string t = tokOf(*refs[r]);
+        if (a && t == cur) { b = r; continue; }
+        flush();
+        a = b = r; cur = t;
     }
+    flush();
+    if (cont) {
+        for (size_t k = 1; k <= cont->NumObjects(); ++k) {
+            if (!out.empty()) out += ' ';
+            out += "c" + std::to_string(k) + ":" + tokOf(cont->ObjectAt(k));
+        }
+    }
+    out += canaries();
     return out;
 }
 }
@@ -74,16 +119,37 @@ int main()
         const bool numeric = parseNats(t, 1, n);
         const std::string& op = t.empty() ? std::string() : t[0];
         bool ok = false;
-        if (op == "universe" && numeric && n.size() == 2) {
+        const bool uq = op == "universe" && t.size() == 4 && t[3] == "q";
+        if (uq) { t.pop_back(); n.clear(); }
+        if (op == "universe" && (numeric || (uq && parseNats(t, 1, n))) && n.size() == 2) {
             delete cont; cont = new con::Container<Ref>;
             for (auto*& r : refs) { delete r; r = nullptr; }
             for (auto*& o : objs) { delete o; o = nullptr; }
             objs.assign(n[0] + 1, nullptr);
             refs.assign(n[1] + 1, nullptr);
+            quiet = uq;
             say("ok");
             continue;
         }
+        if (op == "obs" && t.size() == 1) { say("ok " + observeRle()); continue; }
         if (!numeric) { say("bad-op"); continue; }
+        if (op == "quiet" && n.size() == 1) { quiet = n[0] != 0; say("ok"); continue; }
+        if (op == "mkrefs" && n.size() == 3) {
+            // references a..b onto object o, alternately `Ref r(o)` and `Ref r(previous)`; all-or-nothing
+            const size_t o = n[0], a = n[1], b = n[2];
+            bool legal = o < objs.size() && a != 0 && b < refs.size() && a <= b && okTarget(o);
+            for (size_t r = a; legal && r <= b; ++r) if (refs[r]) legal = false;
+            if (legal) {
+                for (size_t r = a; r <= b; ++r)
+                    refs[r] = ((r - a) % 2 == 1) ? new Ref(*refs[r - 1]) : new Ref(objOrNull(o));
+                ok = true;
+            }
+        } else if (op == "delrefs" && n.size() == 2) {
+            const size_t a = n[0], b = n[1];
+            bool legal = a != 0 && b < refs.size() && a <= b;
+            for (size_t r = a; legal && r <= b; ++r) if (!refs[r]) legal = false;
+            if (legal) { for (size_t r = a; r <= b; ++r) { delete refs[r]; refs[r] = nullptr; } ok = true; }
+        } else
         if (op == "newobj" && n.size() == 1) {
             if (n[0] != 0 && n[0] < objs.size() && !objs[n[0]]) { objs[n[0]] = new Obj; ok = true; }
         } else if (op == "delobj" && n.size() == 1) {
@@ -109,7 +175,7 @@ int main()
         } else if (op == "delref" && n.size() == 1) {
             if (liveRef(n[0])) { delete refs[n[0]]; refs[n[0]] = nullptr; ok = true; }
         }
-        if (ok) say("ok " + observe()); else say("bad-op");
+        if (ok) say(quiet ? std::string("ok") : "ok " + observe()); else say("bad-op");
     }
     delete cont; cont = nullptr;
     for (auto*& r : refs) { delete r; r = nullptr; }
